@@ -85,13 +85,13 @@ theorem ZOk_none {L g nbF : Nat} {ll : Option Nat} (hg : g + 1 < nbF) : ∀ (as 
   | nil => intro _ _; trivial
   | cons a as ih =>
     intro k sq
-    refine ⟨⟨fun h => by omega, fun h => by cases h⟩, fun h => by cases h, ih _ _⟩
+    refine ⟨⟨fun h => by omega, fun h => (by cases h)⟩, fun h => (by cases h), ih _ _⟩
 
 theorem TOk_none {T : Int} {n : Nat} : ∀ (xs : List Ext) (k : Nat), TOk T none n k xs := by
   intro xs
   induction xs with
   | nil => intro _; trivial
-  | cons x xs ih => intro k; exact ⟨fun h => by cases h, ih _⟩
+  | cons x xs ih => intro k; exact ⟨fun h => (by cases h), ih _⟩
 
 theorem repBlock_cons2 (R : Nat) (last : Bool) (ll : Option Nat) (r r' : List Ext) (rs : List (List Ext)) :
     repBlock R last ll (r :: r' :: rs) = repPayloads none 0 (r.take R) ++ repBlock R last ll (r' :: rs) := rfl
